@@ -123,7 +123,9 @@ def docJson (env : Validate.Env) (j : Json) : Except String Json := do
       | .ok (entries, full) => (entries ++ full).eraseDups
       | .error _ => []
     let O := HedVerif.Closed.memoSidecar (HedVerif.Closed.sidecarOracle env) texts
-    pure <| jobj [("on", scOut (Flow.Sc.validateW true g O doc)), ("off", scOut (Flow.Sc.validateW false g O doc))]
+    -- `early`: the exit before `sort_issues` is taken (structure / reference errors): the list is then not promised sorted
+    pure <| jobj [("on", scOut (Flow.Sc.validateW true g O doc)), ("off", scOut (Flow.Sc.validateW false g O doc)),
+                  ("early", jbool (C08.early g doc))]
 
 def handle (op : String) (j : Json) : Option (Except String Json) :=
   match op with
